@@ -2,17 +2,19 @@
 package c08
 
 import (
-	"sync"
 	"bytes"
 	"fmt"
+	amath "github.com/marekgalovic/anndb/math"
 	"io"
+	"math"
 	"math/rand"
 	"os"
 	"runtime"
 	"strconv"
 	"strings"
-	"time"
+	"sync"
 	"testing"
+	"time"
 
 	"github.com/marekgalovic/anndb/index"
 	"verif/harness/hx"
@@ -193,6 +195,24 @@ func runCase(rec *mon.Recorder, c int, shapeIdx int) {
 		}
 		ref[id] = &hx.Item{Vec: v, Meta: m}
 		ops = append(ops, "ins meta-shape "+sh.name)
+	}
+	if c%16 == 9 && shapeIdx < 0 {
+		// items whose distances to other items are not numbers: the all-zero vector under the cosine metric (0/0), a
+		// component of +Inf under the other two (Inf - Inf). The server accepts them, links to them carry NaN as
+		// their cached distance, and a snapshot has to carry that too.
+		for k := 0; k < 1+rng.Intn(2); k++ {
+			v := make(amath.Vector, cfg.Dim)
+			if cfg.Metric != 3 {
+				copy(v, cfg.Vec(rng))
+				v[rng.Intn(cfg.Dim)] = float32(math.Inf(1))
+			}
+			id := hx.Id(2000 + k)
+			if err := idx.Insert(id, v, nil, rng.Intn(2)); err == nil {
+				ref[id] = &hx.Item{Vec: v}
+				ops = append(ops, "ins item-with-non-number-distances")
+				rec.Count("items_with_non_number_distances_saved", 1)
+			}
+		}
 	}
 	if len(ref) == 0 && kind == "history" {
 		kind = "emptied"
